@@ -6,6 +6,7 @@ import (
 
 	"github.com/go-kid/ioc/app"
 	"github.com/go-kid/ioc/container"
+	"github.com/go-kid/ioc/definition"
 
 	"verif/internal/core"
 	"verif/internal/envx"
@@ -34,10 +35,32 @@ type c13Case struct {
 	Fail       int   `json:"failing"`   // -1 none
 	Background int   `json:"background"`
 	Desc       bool  `json:"descending_order,omitempty"`
-	Zero       int   `json:"zero_size_runners,omitempty"`      // mask over stateless (field-less) runner types Z1,Z2,Z3
-	ErrShape   int   `json:"err_shape,omitempty"`              // what kind of error value the failing runner returns (scen.Err*)
-	LateOrder  bool  `json:"order_known_after_init,omitempty"` // the runners' Order() answers 0 until their Init ran
-	AppDep     int   `json:"runners_depend_on_app,omitempty"`  // runners hold the App itself: 1 = named to be created before it, 2 = after it
+	Zero       int   `json:"zero_size_runners,omitempty"`           // mask over stateless (field-less) runner types Z1,Z2,Z3
+	ErrShape   int   `json:"err_shape,omitempty"`                   // what kind of error value the failing runner returns (scen.Err*)
+	LateOrder  bool  `json:"order_known_after_init,omitempty"`      // the runners' Order() answers 0 until their Init ran
+	AppDep     int   `json:"runners_depend_on_app,omitempty"`       // runners hold the App itself: 1 = named to be created before it, 2 = after it
+	Marker     bool  `json:"priority_by_embedded_marker,omitempty"` // priority-ordered runners get Priority() from the library's embeddable marker and Order() from a second embedded base
+}
+
+// c13OrderBase supplies Order() to whoever embeds it.
+type c13OrderBase struct{ O int }
+
+func (b *c13OrderBase) Order() int { return b.O }
+
+// c13MarkerRun is priority-ordered by composition: the library's marker struct next to a base with Order().
+type c13MarkerRun struct {
+	definition.PriorityComponent
+	c13OrderBase
+	P scen.Part
+}
+
+func (r *c13MarkerRun) Naming() string { return r.P.Nm }
+func (r *c13MarkerRun) Run() error {
+	r.P.RT.Event("run:" + r.P.Nm)
+	if r.P.Fail {
+		return r.P.RT.MkErr("run:" + r.P.Nm)
+	}
+	return nil
 }
 
 // runners that hold the App itself (they sit on a cycle with the App's own slice of runners)
@@ -188,6 +211,31 @@ func c13Gen(c *core.Ctx) func(yield func(c13Case) bool) {
 				return
 			}
 		}
+		{
+			// priority-ordered runners composed from the library's embeddable marker, also failing
+			stop := false
+			seqs(3, 12, func(s []int) bool {
+				anyP := false
+				for _, x := range s {
+					anyP = anyP || c12Class(x) == 0
+				}
+				if !anyP {
+					return true
+				}
+				for f := -1; f < len(s); f++ {
+					for _, d := range []bool{false, true} {
+						if !yield(c13Case{Seq: s, Fail: f, Desc: d, Marker: true}) {
+							stop = true
+							return false
+						}
+					}
+				}
+				return true
+			})
+			if stop {
+				return
+			}
+		}
 		for dep := 1; dep <= 2; dep++ {
 			stop := false
 			seqs(2, 12, func(s []int) bool {
@@ -264,6 +312,8 @@ func c13Run(c *core.Ctx) {
 				part := scen.Part{Nm: names[i], O: c12Order(s), RT: rt, Fail: i == cs.Fail}
 				lazy := cs.LazyMask>>i&1 == 1
 				switch {
+				case cs.Marker && c12Class(s) == 0:
+					out = append(out, &c13MarkerRun{c13OrderBase: c13OrderBase{part.O}, P: part})
 				case cs.LateOrder && cs.AppDep != 0 && c12Class(s) == 0:
 					out = append(out, &c13AppRunPI{RunPI: scen.RunPI{Part: part}, early: cs.AppDep == 1})
 				case cs.LateOrder && cs.AppDep != 0:
